@@ -59,6 +59,17 @@ def extra(ctx):
     """A few modules of hundreds of items: the drawn item list is tiled 25..45 times, every copy with names of its own."""
     from .common import large_campaign
     large_campaign(ctx, strategy("quick", repeat=st.integers(25, 45)), evaluate, 4 if ctx.tier == "quick" else 32)
+    # NAME far to the right: hundreds of arguments in front of it (boundaries around 2^8 and beyond)
+    from vlib.harness import safe_evaluate
+    import sys
+    for n in (40, 254, 255, 256, 257, 300, 1000):
+        for documented in (False, True):
+            item = {"k": "addtest", "pre": [f"arg{j}" for j in range(n)], "name": f"far_right_{n}", "post": ["COMMAND", "run_it"],
+                    "doc": {"lines": [f"Far right. FARDOC{n}M"], "form": "leader", "marker": f"FARDOC{n}M"} if documented else None}
+            case = {"module": {"moddoc": None, "items": [item]}, "layout": [], "twins": False}
+            r = safe_evaluate(sys.modules[__name__], case)
+            r.labels.append("add_test-with-hundreds-of-arguments")
+            ctx.record(case, r)
 
 
 def evaluate(case):
